@@ -128,7 +128,10 @@ def m_vec_index(I, m, argv, fr, dest, c):
     base, idx = argv
     v = deref1(base)
     if isinstance(v, Buf):
-        raise Inconclusive("Vec<u8>[usize] through Index trait")
+        from .values import ByteLoc
+        if not I.path.decide(z3.ULT(idx, v.length)):
+            raise Panic("index out of bounds (Vec<u8>)")
+        return Ref(ByteLoc(base.loc, idx))
     items = items_of(base)
     i = z3.simplify(idx)
     if not z3.is_bv_value(i):
@@ -199,6 +202,59 @@ def m_skip(I, m, argv, fr, dest, c):
     return it
 
 
+def m_vec_into_iter(I, m, argv, fr, dest, c):
+    v = argv[0]
+    it = IterV(v.items if isinstance(v, VecV) else items_of(v))
+    it.by_value = True
+    return it
+
+
+def m_option_as_mut(I, m, argv, fr, dest, c):
+    o = deref1(argv[0])
+    if o.vname == "None":
+        return NoneV()
+    return SomeV(Ref(Loc(o.fields, 0)))
+
+
+def m_partial_ord(I, m, argv, fr, dest, c):
+    a, b = deref1(argv[0]), deref1(argv[1])
+    a, b = deref1(a), deref1(b)
+    op = m.group("m") or m.group("m2")
+    if z3.is_bv(a) and "u" in (m.groupdict().get("ty") or ""):
+        return {"gt": z3.UGT, "lt": z3.ULT, "ge": z3.UGE, "le": z3.ULE}[op](a, b)
+    if z3.is_fp(a):
+        return {"gt": z3.fpGT, "lt": z3.fpLT, "ge": z3.fpGEQ, "le": z3.fpLEQ}[op](a, b)
+    return {"gt": lambda x, y: x > y, "lt": lambda x, y: x < y, "ge": lambda x, y: x >= y, "le": lambda x, y: x <= y}[op](a, b)
+
+
+class DrainV:
+    def __init__(self, buf):
+        self.buf = buf
+
+
+def m_drain_u8(I, m, argv, fr, dest, c):
+    r, rng = argv
+    v = r.loc.get()
+    kind = m.group("kind")
+    if kind == "RangeFull":
+        n = v.length
+    else:
+        n = rng.fields[0]
+        if not I.path.decide(z3.ULE(n, v.length)):
+            raise Panic("drain range out of bounds")
+    old, oldlen = v.fn, v.length
+    part = Buf(old, z3.simplify(n))
+    r.loc.set(Buf(lambda k: old(k + n), z3.simplify(oldlen - n)))
+    return DrainV(part)
+
+
+def m_drain_collect(I, m, argv, fr, dest, c):
+    d = argv[0]
+    if isinstance(d, DrainV):
+        return d.buf
+    return NotImplemented
+
+
 def m_enumerate(I, m, argv, fr, dest, c):
     return EnumIterV(argv[0])
 
@@ -207,6 +263,8 @@ def iter_next(I, it):
     if isinstance(it, IterV):
         if it.pos < it.end:
             it.pos += 1
+            if getattr(it, "by_value", False):
+                return SomeV(it.items[it.pos - 1])
             return SomeV(Ref(Loc(it.items, it.pos - 1)))
         return NoneV()
     if isinstance(it, ByteIterV):
@@ -237,6 +295,8 @@ def m_iter_next(I, m, argv, fr, dest, c):
 def call_closure(I, f, args):
     """call a closure value (Agg kind closure) or fn item with positional args"""
     f0 = deref1(f)
+    if isinstance(f0, FnItem) and "{closure@" in f0.name:
+        f0 = Agg("closure", [], f0.name[f0.name.index("{closure@"):])
     if isinstance(f0, FnItem):
         name = I.resolve(f0.name)
         if name:
@@ -355,9 +415,16 @@ def m_float_from_bytes(I, m, argv, fr, dest, c):
     return z3.fpBVToFP(bv, z3.Float64() if n == 8 else z3.Float32())
 
 
+def float_bits(v):
+    """IEEE bits of a float term; bit-exact (NaN payloads included) when the term is a reinterpretation of a bit-vector"""
+    if z3.is_app(v) and v.decl().kind() == z3.Z3_OP_FPA_TO_FP and v.num_args() == 1 and z3.is_bv(v.arg(0)):
+        return v.arg(0)
+    return z3.fpToIEEEBV(v)
+
+
 def m_float_to_bytes(I, m, argv, fr, dest, c):
     v = argv[0]
-    bv = z3.fpToIEEEBV(v)
+    bv = float_bits(v)
     n = bv.size() // 8
     parts = [z3.Extract(8 * i + 7, 8 * i, bv) for i in range(n)]
     if m.group("e") == "be":
@@ -369,7 +436,7 @@ def m_float_to_bytes(I, m, argv, fr, dest, c):
 
 
 def m_float_to_bits(I, m, argv, fr, dest, c):
-    return z3.fpToIEEEBV(argv[0])
+    return float_bits(argv[0])
 
 
 def m_mem_swap(I, m, argv, fr, dest, c):
@@ -400,6 +467,19 @@ def m_option_eq_int(I, m, argv, fr, dest, c):
     return NotImplemented
 
 
+def m_float_ref_op(I, m, argv, fr, dest, c):
+    a, b = deref1(argv[0]), deref1(argv[1])
+    op = m.group("op")
+    rm = z3.RNE()
+    if op == "add":
+        return z3.fpAdd(rm, a, b)
+    if op == "sub":
+        return z3.fpSub(rm, a, b)
+    if op == "mul":
+        return z3.fpMul(rm, a, b)
+    return I.fp_div(a, b)
+
+
 def m_size_of(I, m, argv, fr, dest, c):
     sizes = {"f32": 4, "f64": 8, "u8": 1, "u16": 2, "u32": 4, "u64": 8, "usize": 8, "i64": 8, "i32": 4, "u128": 16, "i128": 16}
     t = m.group("t")
@@ -408,10 +488,27 @@ def m_size_of(I, m, argv, fr, dest, c):
     return U64(sizes[t])
 
 
+def m_default(I, m, argv, fr, dest, c):
+    ty = m.group("t")
+    if ty.startswith("Option<"):
+        return NoneV()
+    if ty in ("u64", "usize", "i64"):
+        return U64(0)
+    if ty == "bool":
+        return z3.BoolVal(False)
+    if ty == "String":
+        return StrV("")
+    if ty.startswith("Vec<"):
+        return VecV([], ty)
+    return NotImplemented
+
+
 def container_models():
     R = re.compile
     return [
+        (R(r"^<(?P<t>Option<.*>|u64|usize|i64|bool|String|Vec<.*>) as Default>::default$"), m_default),
         (R(r"^std::mem::size_of::<(?P<t>\w+)>$|^core::mem::size_of::<(?P<t2>\w+)>$"), m_size_of),
+        (R(r"^<&?f(?:32|64) as (?:Add|Sub|Mul|Div)<&?f(?:32|64)>>::(?P<op>add|sub|mul|div)$"), m_float_ref_op),
         (R(r"^Vec::<(?P<t>[\w<>:, ]+)>::(?:new|with_capacity)$"), m_vec_new),
         (R(r"^Vec::<.*>::len$|^VecDeque::<.*>::len$"), m_vec_len),
         (R(r"^Vec::<.*>::is_empty$|^VecDeque::<.*>::is_empty$"), m_vec_is_empty),
@@ -428,6 +525,11 @@ def container_models():
         (R(r"^VecDeque::<.*>::push_back$"), m_deque_push_back),
         (R(r"^VecDeque::<.*>::pop_front$"), m_deque_pop_front),
         (R(r"^core::slice::<impl \[.*\]>::iter$"), m_slice_iter),
+        (R(r"^<Vec<.*> as IntoIterator>::into_iter$"), m_vec_into_iter),
+        (R(r"^Option::<.*>::as_mut$"), m_option_as_mut),
+        (R(r"^<T as PartialOrd>::(?P<m>gt|lt|ge|le)$|^<&*(?P<ty>f64|f32|i64|i32|u64|usize|u8|u16|u32) as PartialOrd(?:<.*>)?>::(?P<m2>gt|lt|ge|le)$"), m_partial_ord),
+        (R(r"^Vec::<u8>::drain::<(?:std::ops::)?(?P<kind>RangeFull|RangeTo)(?:<usize>)?>$"), m_drain_u8),
+        (R(r"^<std::vec::Drain<'_, u8> as Iterator>::collect::<Vec<u8>>$"), m_drain_collect),
         (R(r"^<.* as IntoIterator>::into_iter$"), m_into_iter),
         (R(r"^<.* as Iterator>::enumerate$"), m_enumerate),
         (R(r"^<.* as Iterator>::skip$"), m_skip),
